@@ -130,7 +130,7 @@ def flushSeg (st : PState) : Except PErr PState :=
     | .error e => .error e
   else .ok st
 
-/-- `(` branch -/
+/-- `(` branch (the collector arm also ends the search for an anchor mark: /repo 5554362) -/
 def hOpenParen (st : PState) (c : Char) : StepOut :=
   if st.count = 1 ∧ st.stack.head? = some '[' ∧ st.segId ≠ [] then
     match keywordOf? st.segId with
@@ -141,7 +141,7 @@ def hOpenParen (st : PState) (c : Char) : StepOut :=
     match (if st.collectorLevel = 0 then flushSeg st else .ok st) with
     | .error e => .err e
     | .ok st =>
-      let st := ({ st with seekingCollectorOp := false,
+      let st := ({ st with seekingCollectorOp := false, seekingAnchorMark := false,
                            collectorLevel := st.collectorLevel + 1 }.push c)
       let st := { st with segType := some .collector }
       if st.collectorLevel = 1 then .cont st else .fall st
